@@ -20,6 +20,10 @@ ASSUMPTIONS = ["Erfi is evaluated for |x| <= 26.71 (the property states 'all rea
                "Round(9.999999499999999e+130,7) = 1e+131, Round(5.9682484999999994e+131,7) = 5.968249e+131 (each at most 1 ulp(x) beyond half a unit)",
                "generated arguments of Round keep a relative margin 2^-40 from the rounding boundary floor(p + 0.5) unless the arithmetic is exact; "
                "Dawson arguments within 1e-9 of a node switch |x| = 0.8k + 0.4 are compared at the stated accuracy only",
+               "harmonics relative to their magnitude: Spherical_Harmonics within 64 eps |Y_lm| (worst on HEAD 1.1e-16 relative, polar caps theta resp. pi-theta from the "
+               "subnormals to 1e-1 included), every component of the vector harmonics within 64 eps x sum of |coefficient x Y_{l_hat,m_hat}| (the terms of the coded sum cancel, "
+               "so a component can only be judged relative to its terms; worst on HEAD 3.6e-16); below the normal double range an absolute 2^-1022 (underflow) is allowed",
+               "call sequences: each result is compared bit for bit with the same call made by the harness executable in a fresh process (no earlier call of the function)",
                "Floats_Equal: the decision is compared with the model unless the tolerance is within 2^-30 (relative) of the relative difference AND the double "
                "computation of |a-b|/max(|a|,|b|) is inexact (exact boundary cases tol == relative difference are compared: they separate <= from <); "
                "reflexivity and symmetry are unconditional for every tolerance >= 0"]
@@ -325,6 +329,44 @@ def generate(tier, seed, ctx):
             nm, th, ph = rng.choice(DIR_SPECIAL) if rng.random() < 0.25 else ("rnd", rng.uniform(0.01, math.pi - 0.01), rng.uniform(0, 2 * math.pi))
             trip.append("%d %d %s %s" % (lj, mj, hx(th), hx(ph)))
         R.append("c17.vshhold %s %s" % (kind, " ".join(trip)))
+    # consecutive calls for the same (l,m) in directions that agree to 1 ulp ... 1e-9 (relative) in one or both angles
+    def nudge(x, rel):
+        if rel == "ulp":
+            return math.nextafter(x, rng.choice([0.0, 10.0]))
+        return x * (1 + rng.choice([-1, 1]) * rel)
+    for k in range(150 if thorough else 50):
+        l = rng.randint(1, LMAX)
+        m = rng.randint(-l, l)
+        th, ph = rng.uniform(0.05, math.pi - 0.05), rng.uniform(0.1, 2 * math.pi)
+        rel = rng.choice(["ulp", 1e-14, 1e-12, 6e-11, 1e-9])
+        which = k % 3
+        th2 = nudge(th, rel) if which in (0, 2) else th
+        ph2 = nudge(ph, rel) if which in (1, 2) else ph
+        kinds = [("Y", "Y"), ("Y", "Psi"), ("Psi", "Y"), ("Psi", "Psi")][(k // 3) % 4]
+        calls = [(kinds[0], l, m, th, ph), (kinds[1], l, m, th2, ph2)]
+        if k % 5 == 0:
+            calls.append((kinds[0], l, m, th, ph))          # back to the first direction
+        if k % 7 == 0:
+            calls.insert(1, (kinds[1], l, -m, th, ph))       # the conjugation partner in between
+        R.append("c17.vshseq %d %s" % (len(calls), " ".join("%s %d %d %s %s" % (c[0], c[1], c[2], hx(c[3]), hx(c[4])) for c in calls)))
+    # polar caps: theta resp. pi - theta log-uniform from the subnormals to 1e-1, every (l,m): Y_lm ~ sin^|m| theta is small but
+    # not zero there and is judged relative to its magnitude
+    for l in range(0, LMAX + 1):
+        for m in range(-l, l + 1):
+            for rep in range(3 if thorough else 1):
+                for south in (False, True):
+                    c = rng.random()
+                    if south:
+                        eps_ = 10.0 ** rng.uniform(-16, -1) if c < 0.9 else rng.choice([1.3e-16, 5e-16, 1e-15])
+                        th = math.pi - eps_
+                    else:
+                        th = 10.0 ** rng.uniform(-300, -1) if c < 0.8 else 10.0 ** rng.uniform(-12, -1) if c < 0.95 else rng.choice([5e-324, 1e-310, 2.3e-308])
+                    ph = rng.uniform(0, 2 * math.pi)
+                    R.append("c17.sph %d %d %s %s" % (l, m, hx(th), hx(ph)))
+                    if rng.random() < (1.0 if thorough else 0.5):
+                        R.append("c17.vshY %d %d %s %s" % (l, m, hx(th), hx(ph)))
+                        if l >= 1:
+                            R.append("c17.vshPsi %d %d %s %s" % (l, m, hx(th), hx(ph)))
     ctx["round_results"] = []
     ctx["worst"] = {}
     return R
@@ -373,19 +415,23 @@ def table_coef(kind, comp, l, m, lh, mh):
     return (-L if up else L + 1, 0, q)
 
 
-def expansion(kind, l, m, th, ph):
+def expansion(kind, l, m, th, ph, with_scale=False):
     M = mp()
-    out = []
+    out, scales = [], []
     for comp in range(3):
         s = M.mpc(0)
+        sc = M.mpf(0)
         for lh in (l - 1, l + 1):
             for mh in (m - 1, m, m + 1):
                 if abs(mh) <= lh:
                     re, im, q = table_coef(kind, comp, l, m, lh, mh)
                     if q != 0:
-                        s += M.mpc(float(re), float(im)) * M.sqrt(M.mpf(q.numerator) / q.denominator) * yref(lh, mh, th, ph)
+                        term = M.mpc(float(re), float(im)) * M.sqrt(M.mpf(q.numerator) / q.denominator) * yref(lh, mh, th, ph)
+                        s += term
+                        sc += abs(term)
         out.append(s)
-    return out
+        scales.append(sc)
+    return (out, scales) if with_scale else out
 
 
 def cplx(ts):
@@ -562,6 +608,10 @@ def compare(rq, impl, model, ctx):
         return cmp_premain(ti, ctx)
     if op == "c17.vshhold":
         return cmp_hold(a, ti, ctx)
+    if op == "c17.vshseq":
+        if not selftest():
+            return [fail("corr", "internal: the reference harmonics fail their self-test against mpmath.spherharm", "")]
+        return cmp_seq(a, ti, ctx)
     if op == "c17.inverfscan":
         return scan_inverf(a, ti, ctx)
     if op == "c17.dawscan":
@@ -621,6 +671,13 @@ def compare(rq, impl, model, ctx):
             worst(ctx, "Y_lm abs err", abs(M.mpc(z) - ref))
             if abs(M.mpc(z) - ref) > tol:
                 out.append(fail("prop", "Spherical_Harmonics differs from Y_lm", "Y_%d,%d(%r,%r)=%r ref %s" % (l, m, th, ph, z, M.nstr(ref, 12))))
+            # relative to the magnitude of the value (Y_lm ~ sin^|m| theta near the poles is small but not zero): 64 eps |Y_lm|,
+            # below the normal double range an absolute 2^-1022
+            rel = abs(M.mpc(z) - ref) / abs(ref) if abs(ref) > M.mpf(2) ** -1000 else M.mpf(0)
+            worst(ctx, "Y_lm rel err", rel)
+            if abs(M.mpc(z) - ref) > K_SPH * 2.0 ** -53 * abs(ref) + M.mpf(2) ** -1022:
+                out.append(fail("prop", "Spherical_Harmonics differs from Y_lm relative to its magnitude", "Y_%d,%d(%r,%r)=%r ref %s (relative error %s)" % (
+                    l, m, th, ph, z, M.nstr(ref, 12), M.nstr(rel, 4))))
             if zneg != (-1) ** (m % 2) * z.conjugate():      # "equals": exact
                 out.append(fail("prop", "Y_{l,-m} != (-1)^m conj(Y_{l,m})", "l=%d m=%d: %r vs %r" % (l, m, zneg, z)))
             return out
@@ -629,42 +686,96 @@ def compare(rq, impl, model, ctx):
         vec, y = zs[:3], zs[3]
         if n != 3:
             return [fail("prop", "vector harmonic does not have three components", str(n))]
-        rhat = [M.sin(thm) * M.cos(phm), M.sin(thm) * M.sin(phm), M.cos(thm)]
-        exp_ = expansion("Y" if op == "c17.vshY" else "Psi", l, m, thm, phm)
-        dev = max(abs(M.mpc(vec[i]) - exp_[i]) for i in range(3))
-        worst(ctx, op + " dev from table expansion", dev)
-        tol_v = 64 * 2.0 ** -53         # audit: worst 4.4e-16 / 2.7e-16 on HEAD
-        if op == "c17.vshY":
-            ref = [rhat[i] * yref(l, m, thm, phm) for i in range(3)]
-            err = max(abs(M.mpc(vec[i]) - ref[i]) for i in range(3))
-            worst(ctx, "vector Y abs err", err)
-            if err > tol_v:
-                out.append(fail("prop", "Vector_Spherical_Harmonics_Y differs from r_hat * Y_lm", "l=%d m=%d (%r,%r): %r ref %s" % (
-                    l, m, th, ph, vec, [M.nstr(r, 10) for r in ref])))
-            elif dev > tol:
-                out.append(fail("corr", "Vector_Spherical_Harmonics_Y differs from the expansion with the model's table", ""))
-            return out
-        # Psi: tangential, = r grad Y
-        lm_scale = math.sqrt(l * (l + 1)) + 1
-        rad = sum(rhat[i] * M.mpc(vec[i]) for i in range(3))
-        worst(ctx, "Psi radial part", abs(rad))
-        if abs(rad) > tol_v * lm_scale:
-            out.append(fail("prop", "Vector_Spherical_Harmonics_Psi is not tangential", "l=%d m=%d (%r,%r): r.Psi=%s" % (l, m, th, ph, M.nstr(rad, 6))))
-        if dirclass != "pole":
-            th_hat = [M.cos(thm) * M.cos(phm), M.cos(thm) * M.sin(phm), -M.sin(thm)]
-            ph_hat = [-M.sin(phm), M.cos(phm), 0]
-            dth = dtheta_yref(l, m, thm, phm)
-            dph = M.mpc(0, m) * yref(l, m, thm, phm) / M.sin(thm)
-            ref = [th_hat[i] * dth + ph_hat[i] * dph for i in range(3)]
-        else:
-            ref = exp_   # at the poles the gradient formula is singular: reference through the expansion
-        err = max(abs(M.mpc(vec[i]) - ref[i]) for i in range(3))
-        worst(ctx, "Psi abs err", err)
-        if err > tol * lm_scale * (1 if dirclass != "pole" else 10):
-            out.append(fail("prop", "Vector_Spherical_Harmonics_Psi differs from r grad Y_lm", "l=%d m=%d (%r,%r): %r ref %s" % (
-                l, m, th, ph, vec, [M.nstr(r, 10) for r in ref])))
-        return out
+        return check_vec("Y" if op == "c17.vshY" else "Psi", l, m, th, ph, vec, out, ctx)
     return [fail("corr", "unknown op " + op)]
+
+
+K_SPH = 64        # relative tolerance (eps) of Spherical_Harmonics against the 40-digit reference
+K_VEC = 64        # forward-error tolerance (eps x sum of |terms|) of the components of the vector harmonics
+
+
+def check_vec(kind, l, m, th, ph, vec, out, ctx, label=""):
+    """the point-wise clauses of one vector harmonic: = r_hat Y_lm resp. tangential and = r grad Y_lm (absolute, 64 eps), and every
+    component against the definition RELATIVE to the magnitude of its terms (so that small non-zero components near the poles
+    are judged)"""
+    M = mp()
+    thm, phm = M.mpf(th), M.mpf(ph)
+    op = "c17.vsh" + kind
+    fn = "Vector_Spherical_Harmonics_" + kind
+    dirclass = "pole" if min(th, math.pi - th) < 1e-3 else "equator" if abs(th - math.pi / 2) < 1e-9 else "gen"
+    tol = 2e-12 * (l + 1)
+    rhat = [M.sin(thm) * M.cos(phm), M.sin(thm) * M.sin(phm), M.cos(thm)]
+    exp_, scales = expansion(kind, l, m, thm, phm, with_scale=True)
+    dev = max(abs(M.mpc(vec[i]) - exp_[i]) for i in range(3))
+    worst(ctx, op + " dev from table expansion", dev)
+    tol_v = 64 * 2.0 ** -53         # audit: worst 4.4e-16 / 2.7e-16 on HEAD
+    where = "%sl=%d m=%d (%r,%r)" % (label, l, m, th, ph)
+    # relative to the terms: |component - definition| <= 64 eps * sum |coefficient * Y_{l_hat,m_hat}|
+    for i in range(3):
+        e_ = abs(M.mpc(vec[i]) - exp_[i])
+        if scales[i] > M.mpf(2) ** -1000:
+            worst(ctx, "vector %s err / sum|terms|" % kind, e_ / scales[i])
+        if e_ > K_VEC * 2.0 ** -53 * scales[i] + M.mpf(2) ** -1022:
+            out.append(fail("prop", "%s: component %d differs from the definition relative to the magnitude of its terms" % (fn, i),
+                            "%s: %r, definition %s, sum |terms| %s" % (where, vec[i], M.nstr(exp_[i], 12), M.nstr(scales[i], 4))))
+            break
+    if kind == "Y":
+        ref = [rhat[i] * yref(l, m, thm, phm) for i in range(3)]
+        err = max(abs(M.mpc(vec[i]) - ref[i]) for i in range(3))
+        worst(ctx, "vector Y abs err", err)
+        if err > tol_v:
+            out.append(fail("prop", "Vector_Spherical_Harmonics_Y differs from r_hat * Y_lm", "%s: %r ref %s" % (where, vec, [M.nstr(r, 10) for r in ref])))
+        elif dev > tol:
+            out.append(fail("corr", "Vector_Spherical_Harmonics_Y differs from the expansion with the model's table", ""))
+        return out
+    # Psi: tangential, = r grad Y
+    lm_scale = math.sqrt(l * (l + 1)) + 1
+    rad = sum(rhat[i] * M.mpc(vec[i]) for i in range(3))
+    worst(ctx, "Psi radial part", abs(rad))
+    if abs(rad) > tol_v * lm_scale:
+        out.append(fail("prop", "Vector_Spherical_Harmonics_Psi is not tangential", "%s: r.Psi=%s" % (where, M.nstr(rad, 6))))
+    if dirclass != "pole":
+        th_hat = [M.cos(thm) * M.cos(phm), M.cos(thm) * M.sin(phm), -M.sin(thm)]
+        ph_hat = [-M.sin(phm), M.cos(phm), 0]
+        dth = dtheta_yref(l, m, thm, phm)
+        dph = M.mpc(0, m) * yref(l, m, thm, phm) / M.sin(thm)
+        ref = [th_hat[i] * dth + ph_hat[i] * dph for i in range(3)]
+    else:
+        ref = exp_   # at the poles the gradient formula is singular: reference through the expansion
+    err = max(abs(M.mpc(vec[i]) - ref[i]) for i in range(3))
+    worst(ctx, "Psi abs err", err)
+    if err > tol * lm_scale * (1 if dirclass != "pole" else 10):
+        out.append(fail("prop", "Vector_Spherical_Harmonics_Psi differs from r grad Y_lm", "%s: %r ref %s" % (where, vec, [M.nstr(r, 10) for r in ref])))
+    return out
+
+
+def cmp_seq(a, ti, ctx):
+    """consecutive calls in one process: every result bit for bit equal to the same call in a fresh process, and equal to the definition"""
+    out = []
+    n = int(a[0])
+    calls = [(a[1 + 5 * i], int(a[2 + 5 * i]), int(a[3 + 5 * i]), fl(a[4 + 5 * i]), fl(a[5 + 5 * i])) for i in range(n)]
+    i = 0
+    for j, (kind, l, m, th, ph) in enumerate(calls):
+        k = int(ti[i])
+        seq = ti[i + 1:i + 1 + 2 * k]
+        i += 1 + 2 * k
+        kf = int(ti[i])
+        fresh = ti[i + 1:i + 1 + kf]
+        i += 1 + kf
+        hist = ", ".join("%s(%d,%d,%r,%r)" % (c[0], c[1], c[2], c[3], c[4]) for c in calls[:j]) or "-"
+        if kf != 2 * k or k != 3:
+            out.append(fail("corr", "fresh-process evaluation of a vector harmonic did not run", "%d %d" % (k, kf)))
+            continue
+        if [fl(t) for t in seq] != [fl(t) for t in fresh] or any(math.isnan(fl(t)) for t in seq):
+            out.append(fail("prop", "a vector harmonic depends on the calls made before it (differs from the same call in a fresh process)",
+                            "Vector_Spherical_Harmonics_%s(%d,%d,%r,%r) after [%s]: %s, in a fresh process: %s" % (
+                                kind, l, m, th, ph, hist, [fl(t) for t in seq], [fl(t) for t in fresh])))
+            break
+        check_vec(kind, l, m, th, ph, cplx(seq), out, ctx, label="after [%s]: " % hist)
+        if out:
+            break
+    ctx["nontrivial"].add(("vshseq", n, tuple(c[0] for c in calls), min(calls[0][1], 3)))
+    return out
 
 
 def read_floats(a):
